@@ -7,7 +7,8 @@
 
   Go nil-pointer dereferences of absent optional arguments are `.panic`; every other failure is `.err`.
   Rule patterns, grammar tags, elided types, opcode table and batch codes are regenerated facts
-  (`Vise.Gen.Facts`), pinned by `#guard`s at the end of this file.
+  (`Vise.Gen.Facts`), pinned by the `#guard`s of Vise/Pins/C16.lean (imported by the C16 proofs only, so that a
+  drift breaks that property's obligations and not the shared driver).
 -/
 import Vise.Codec
 
@@ -403,19 +404,5 @@ def assemble (src : Bytes) : Res Bytes :=
   match parseSrc src with
   | none => .err "parse"
   | some ls => emitLines {} ls
-
-/-! ### pins to the regenerated facts -/
-
-#guard Facts.lexerRules = [("Comment", "(?:#)[^\\n]*"), ("Ident", "^[A-Z]+"), ("Size", "[0-9]+"),
-  ("Sym", "[a-zA-Z_\\*\\.\\^\\<\\>][a-zA-Z0-9_]*"), ("Whitespace", "[ \\t]+"), ("EOL", "[\\n\\r]+"), ("Quote", "[\"']")]
-#guard Facts.asmGrammar = [("Asm", "Instructions", "[]*Instruction", "@@*"),
-  ("Arg", "Sym", "*string", "(@Sym Whitespace?)?"), ("Arg", "Size", "*uint32", "(@Size Whitespace?)?"),
-  ("Arg", "Flag", "*uint8", "(@Size Whitespace?)?"), ("Arg", "Selector", "*string", "(@Sym Whitespace?)?"),
-  ("Arg", "Desc", "*string", "(@Sym Whitespace?)?"), ("Instruction", "OpCode", "string", "@Ident"),
-  ("Instruction", "OpArg", "Arg", "(Whitespace @@)?"), ("Instruction", "Comment", "string", "Comment? EOL")]
-#guard Facts.asmElided = ["Comment", "Whitespace"]
-#guard batchTable = Facts.batchCodes.map fun p => (ascii p.1, p.2)
-#guard opTable = Facts.opcodeIndex.map fun p => (ascii p.1, p.2)
-#guard (menuDown, menuUp, menuNext, menuPrevious) = (256, 257, 258, 259)
 
 end Vise.Asm
